@@ -1094,6 +1094,7 @@ func runC09(c *Ctx) {
 	c09AuditDump(c) // ---- 2d. the AST dump below covers every field of the Go AST (c09audit.go)
 	c09Decl(c)      // ---- 2e. type names, parameter lists, struct and filetype declarations (c09decl.go)
 	c09Res(c)       // ---- 2f. stage clauses: src line, using (formatGB), retain (c09res.go)
+	c09Call2(c)     // ---- 2g. full call statements, return, retain, pipeline bodies (c09call2.go)
 
 	// ---- 3. formatter monitors ----
 	progSeeds, _ := c08LoadSeeds(c)
